@@ -35,13 +35,19 @@ def Placement.on (pl : Placement) (t : TaskId) (w : Nat) : Bool := pl.contains (
 def keptLoad (inst : Instance) (pl : Placement) (w : Nat) (p : Int) : Nat :=
   ((inst.tasks.filter fun t => pl.on t.id w && decide (p ≤ t.prio)).map fun t => inst.need t.cls).sum
 
-/-- `h` would fit on `w` once the lower-priority tasks dispatched there in this round are left out -/
+/-- the same for the second resource kind -/
+def keptLoad2 (inst : Instance) (pl : Placement) (w : Nat) (p : Int) : Nat :=
+  ((inst.tasks.filter fun t => pl.on t.id w && decide (p ≤ t.prio)).map fun t => inst.need2 t.cls).sum
+
+/-- `h` would fit on `w` once the lower-priority tasks dispatched there in this round are left out: EVERY resource
+kind it asks for fits -/
 def fitsWithoutLower (inst : Instance) (pl : Placement) (h : TaskInfo) (w : Worker) : Bool :=
-  !w.blocked.contains h.cls && keptLoad inst pl w.id h.prio + inst.need h.cls ≤ w.free
+  !w.blocked.contains h.cls && keptLoad inst pl w.id h.prio + inst.need h.cls ≤ w.free &&
+    keptLoad2 inst pl w.id h.prio + inst.need2 h.cls ≤ w.free2
 
 /-- the documented exception: another worker could run `h` but is too busy to start it now -/
 def waitsForBusy (inst : Instance) (h : TaskInfo) (w : Worker) : Bool :=
-  inst.workers.any fun o => o.id != w.id && inst.need h.cls ≤ o.total && o.free < inst.need h.cls
+  inst.workers.any fun o => o.id != w.id && capable inst h.cls o && !fitsNow inst h.cls o
 
 /-- a pair that C15 forbids -/
 def violatingPair (inst : Instance) (pl : Placement) (h l : TaskInfo) (w : Worker) : Bool :=
@@ -105,13 +111,21 @@ structure Instance.WF (inst : Instance) : Prop where
 /-- F1: at most one request class has ready tasks (any cluster) -/
 def Instance.inF1 (inst : Instance) : Bool := inst.readyClasses.length ≤ 1
 
-/-- F2: one worker, at most two request classes with ready tasks, all classes with the default weight, at most 32
-priority levels (no batch then has more than 32 cuts, so `prune_progressive` drops nothing) -/
+/-- F2 (shape): one worker, at most two request classes with ready tasks, all classes with the default weight, at most
+32 priority levels (no batch then has more than 32 cuts, so `prune_progressive` drops nothing). The theorem for F2
+needs `CpuOnly` in addition (`c15_counterexample_two_resources`: it is false without). -/
 def Instance.inF2 (inst : Instance) : Bool :=
   inst.workers.length = 1 && inst.readyClasses.length ≤ 2 && inst.classes.all (·.weight = 10000) &&
     inst.prios.length ≤ 32
 
+/-- the request classes that have ready tasks ask for cpus only (workers may have the second resource kind, tasks
+that are already running may use it) -/
+def Instance.CpuOnly (inst : Instance) : Prop := ∀ c ∈ inst.readyClasses, inst.need2 c = 0
+
+instance (inst : Instance) : Decidable inst.CpuOnly := by unfold Instance.CpuOnly; infer_instance
+
+/-- F = F1 ∪ (F2 ∩ CpuOnly): the fragment `c15_partial_F` covers -/
 def Instance.fragment (inst : Instance) : String :=
-  if inst.inF1 then "F1" else if inst.inF2 then "F2" else "out"
+  if inst.inF1 then "F1" else if inst.inF2 && decide inst.CpuOnly then "F2" else "out"
 
 end HqModel.Sched
